@@ -138,3 +138,31 @@ def _is_cmp_enum(fn, e, pol, enumname):
         if fn.nodes[j]["k"] == "DeclRefExpr" and fn.nodes[j]["n"] == enumname:
             return True
     return False
+
+
+def recount(ctx, R, prog):
+    """C01.R3 / C08.R6: the thread-free take-over appends the old local list to the tail and subtracts the walked count from `used`."""
+    f = prog.fn("_mi_page_thread_free_collect")
+    cfg = f.cfg
+    # counter: a local initialised to 1 that is incremented in the loop that walks mi_block_next
+    cnts = [dd["d"] for _, dd in rl.local_decl(f, lambda dd: "init" in dd and f.cv(dd["init"]) == 1 and dd.get("w", 0) > 0)]
+    incs = [(x, d) for d in cnts for x, rhs, op in f.var_defs(d) if op == "++"]
+    tails = [dd["d"] for _, dd in rl.local_decl(f, lambda dd: "init" in dd and rl.var_of(f, dd["init"]) is not None and "mi_block_t" in dd["t"])]
+    ok = len(incs) == 1 and all(cfg.in_loop(x) for x, d in incs)
+    ctx.check(R, ok, f.where(), "a counter starting at 1 is incremented once per walked block", key=R + ":recount:counter")
+    if not ok:
+        return
+    inc, cd = incs[0]
+    # tail advances exactly when the counter is incremented
+    adv = [a for t in tails for a, rhs, op in f.var_defs(t) if op == "=" and cfg.in_loop(a)]
+    ok = len(adv) == 1 and cfg.must_pass([cfg.after(inc)], [cfg.pt(inc)] + cfg.exit_points(), lambda e: e in adv) is None
+    ctx.check(R, ok, f.where(inc), "each increment is paired with one advance of the tail", key=R + ":recount:pair")
+    subs = [(a, rhs) for a, l, rhs, op in f.field_stores("used") if op == "-="]
+    ok = len(subs) == 1 and rl.var_of(f, subs[0][1]) == cd
+    ctx.check(R, ok, f.where(subs[0][0]) if subs else f.where(), "page->used -= count (the walked count, not count±k)", key=R + ":recount:sub")
+    heads = [a for a, l, rhs, op in f.field_stores("local_free") if op == "="]
+    for a in heads:
+        w = rl.precedes(f, lambda e: rl.is_call(f, e, "mi_block_set_next") and rl.field_is(f, f.nodes[e]["args"][2], "local_free") and rl.var_of(f, f.nodes[e]["args"][1]) in tails, a)
+        ctx.check(R, w is None, f.where(a), "the old local_free list is linked behind the tail before local_free = head", key=R + ":recount:append", witness=w)
+        w = rl.followed_by(f, a, lambda e: subs and e == subs[0][0])
+        ctx.check(R, w is None, f.where(a), "the recount follows the take-over on every path", key=R + ":recount:follow", witness=w)
